@@ -57,6 +57,21 @@ Proof.
   now apply piece_whole.
 Qed.
 
+(* enum values in sqlite / sybase / mssql DDL are rendered with the POSTGRES converter
+   (col.py: _sqliteType = _postgresType): either the text is a plain ANSI literal
+   decoding to the value, or it carries the E prefix, which those engines refuse *)
+Lemma enum_value_ansi s rest :
+  no_quote_start rest ->
+  exists text, render Postgres (VStr s) = Some text /\
+    ((contains c_bsl text = false /\ lex_ansi (text ++ rest) = Some (s, rest)) \/ starts_with [c_E; c_q] text = true).
+Proof.
+  intros Hr. exists (clean_string Postgres s). split; [apply gen_string_char|].
+  unfold clean_string, quoted, clean_body. cbn [bs_dialect dialect_eqb andb].
+  destruct (contains 92 (esc_bs s)) eqn:E; [right; reflexivity|left]. split.
+  - change c_bsl with 92. cbn [app]. rewrite contains_cons, contains_app, E. reflexivity.
+  - rewrite (esc_bs_no_backslash s E). apply (lex_ansi_roundtrip Sqlite s rest eq_refl Hr).
+Qed.
+
 (* ---------------------------------------------------------------- the skeleton does not depend on the data *)
 Definition tshape (t : token) : token :=
   match t with TStr _ => TStr [] | TNum _ => TNum 0 | x => x end.
